@@ -1,12 +1,6 @@
-open Datatypes
 
-(** val nth : nat -> 'a1 list -> 'a1 -> 'a1 **)
+(** val forallb : ('a1 -> bool) -> 'a1 list -> bool **)
 
-let rec nth n l default =
-  match n with
-  | O -> (match l with
-          | [] -> default
-          | x :: _ -> x)
-  | S m -> (match l with
-            | [] -> default
-            | _ :: t -> nth m t default)
+let rec forallb f = function
+| [] -> true
+| a :: l0 -> (&&) (f a) (forallb f l0)
